@@ -2355,7 +2355,19 @@ func (t *tr) rangeStmt(x *ast.RangeStmt) {
 				return
 			}
 			if !onlyIndexUses(x.Body, id.Name, t.p.text(x.X)) {
-				t.fail(x, "range with an index variable that is used other than as %s[%s]", t.p.text(x.X), id.Name)
+				// the index is used as a number: iterate over the (index, element) pairs and ignore the element
+				t.push()
+				iv := t.declare(id.Name)
+				t.ltypes[iv] = "Int"
+				t.emit("for %s_it in GoRt.enum %s do", iv, coll)
+				t.ind++
+				t.emit("let mut %s : Int := %s_it.1", iv, iv)
+				t.inRange++
+				t.block(x.Body.List)
+				t.inRange--
+				t.ind--
+				t.pop()
+				return
 			}
 			aliasKey = t.p.text(x.X) + "[" + id.Name + "]"
 		}
